@@ -1013,7 +1013,7 @@ def run(scn, rng=None):
             if idle_run <= 2 or idle_run % 64 == 0:
                 checks += [lambda: _compare_states(built, t, "EX.states"), lambda: _check_counts(built, t),
                            lambda: _check_iteration_midrun(built, scn["pipes"], t),
-                           lambda: _check_premature_completion(built, t),
+                           lambda: _check_premature_completion(built, t), lambda: check_live(ex, t),
                            lambda: check_orphans(ex, [(bi_, b_.p) for bi_, b_ in enumerate(built) if b_.at <= t], t)]
             for chk in checks:
                 try:
@@ -1147,6 +1147,22 @@ def _compare_states(built, t, rule):
         want = [m.state for m in b.mops]
         if got != want:
             raise Violation(rule, {"pipeline": bi, "got": got, "want": want}, t)
+
+
+def check_live(ex, t, okey=None):
+    """C02: an operator sits in at most one live container, and while it does it is ASSIGNED, RUNNING, SUSPENDING or
+    (an earlier operator of the list) COMPLETED - never PENDING or FAILED."""
+    from eudoxia.workload import OperatorState as S
+    seen = {}
+    for pl in ex.pools:
+        for c in list(pl.active_containers) + list(pl.suspending_containers):
+            for i, o in enumerate(c.operators):
+                k = okey(o) if okey else i
+                if id(o) in seen:
+                    raise Violation("C02.two_live_containers", {"op": k, "containers": [seen[id(o)], c.container_id]}, t)
+                seen[id(o)] = c.container_id
+                if o.state() not in (S.ASSIGNED, S.RUNNING, S.SUSPENDING, S.COMPLETED):
+                    raise Violation("C02.live_state", {"op": k, "state": o.state().value, "container": c.container_id}, t)
 
 
 def check_orphans(ex, pipelines, t, okey=None):
